@@ -100,7 +100,8 @@ def run_case(case, ctx):
     rng = rng_for(ctx.seed, "c14", k)
     base = ctx.scratch / f"c14-{k}"
     base.mkdir()
-    root = base / "proj"
+    # the project directory's own name must not matter either (also not when it reads like something the tool knows)
+    root = base / ["proj", "proj", "subprojects", "proj", "LICENSES", "sp ace"][k % 6]
     try:
         git = k % 4 == 1
         mode = ["toml", "dep5", "none", "toml"][k % 4]
@@ -155,7 +156,7 @@ def run_case(case, ctx):
             if kind == "absolute":
                 return ["--root", str(root)]
             if kind == "dotdot":
-                return ["--root", str(root / "deep" / ".." / "..") + "/proj"]
+                return ["--root", str(root / "deep" / ".." / "..") + "/" + root.name]
             if kind == "slash":
                 return ["--root", str(root) + "/"]
             return ["--root", str(base / "via_link")]
